@@ -1,5 +1,5 @@
 (** C03 — Match conditions and captured path values behave as documented.
-    Property theorems only; proofs are in C03/Proofs.v and C03/ProofsTree.v.
+    Property theorems only; proofs are in C03/Proofs*.v and C03/Reach*.v.
 
     Model.v is the Go code as it is (route_matcher.go, typed_matcher.go, CreateRule's
     matcher assembly, the radix tree's Add / findNode / Find, FindRule, Execute's
@@ -36,13 +36,22 @@ Theorem C03_method_list_semantics : forall fx4 ms l,
 Proof. exact method_list_semantics_full. Qed.
 Print Assumptions C03_method_list_semantics.
 
-(** a methods list is rejected exactly when it contains an empty string — and, with the
-    candidate repair fixes/C03-F4.diff ([fx4 = true]), when it allows no method *)
+(** a methods list is rejected exactly when it contains an empty string — and, since 22bae5e
+    ([fx4 = true], the tree as it is), when it allows no method ([guard_F4 false ms]: the pinned
+    createMethodMatcher computes the empty list; [C03_method_list_rejected_spec] says the same
+    against the specification) *)
 Theorem C03_method_list_rejected : forall ms,
   (create_method_matcher false ms = Rejected <-> In "" ms) /\
   (create_method_matcher true ms = Rejected <-> In "" ms \/ guard_F4 false ms = true).
 Proof. exact method_list_rejected. Qed.
 Print Assumptions C03_method_list_rejected.
+
+(** the same for the code as it is, against the SPECIFICATION: rejected exactly when the list contains
+    an empty string, or is non-empty and [spec_method] allows no method at all *)
+Theorem C03_method_list_rejected_spec : forall ms,
+  create_method_matcher true ms = Rejected <-> In "" ms \/ (ms <> [] /\ forall m, spec_method ms m = false).
+Proof. exact method_list_rejected_spec. Qed.
+Print Assumptions C03_method_list_rejected_spec.
 
 (** C03-F4: a non-empty list denoting no method is turned into "all methods" *)
 Theorem C03_F4_pinned_refuted :
@@ -51,7 +60,8 @@ Theorem C03_F4_pinned_refuted :
 Proof. exact F4_refuted. Qed.
 Print Assumptions C03_F4_pinned_refuted.
 
-(** hosts: any one of the listed expressions, unless they disagree (C03-F1) *)
+(** hosts: any one of the listed expressions; for the pinned variant [fx1 = false] (before 6793b33)
+    unless they disagree — the guard is false by definition for [fx1 = true], the tree as it is *)
 Theorem C03_hosts_any : forall fx1 eng hs q,
   guard_F1 fx1 eng hs q = false -> hosts_match fx1 eng hs q = spec_hosts eng hs q.
 Proof. exact hosts_semantics. Qed.
@@ -217,16 +227,18 @@ Theorem C03_selected_only_if_documented : forall eng ds es t q r caps rej cs,
 Proof. exact lookup_selected_now. Qed.
 Print Assumptions C03_selected_only_if_documented.
 
-(** history independence, as far as a theorem about the MODEL can say it: a sequence of requests served by
-    one instance of a loaded rule set is answered request by request - the same request gets the same
-    answer at any place of any sequence.  (The model is stateless by construction; that the
+(** independence of a request from the REQUESTS served before it (not to be confused with the histories
+    of rule-set operations of the C03_history_... theorems), as far as a theorem about the MODEL can say it:
+    a sequence of requests served by one instance of a loaded rule set is answered request by request - the
+    same request gets the same answer at any place of any sequence.  The statement is [nth_error (map f qs)],
+    true of any [map]: it records that the model is stateless, it covers no clause of the property.  (The model is stateless by construction; that the
     implementation is, is observed by the check: every request of a case goes through the same matcher
     instances and is compared with the answer of an instance built anew.) *)
-Theorem C03_history_independent : forall fx1 fx2 fx5 fx6 fx7 eng es t qs1 qs2 i j q,
+Theorem C03_request_sequence_independent : forall fx1 fx2 fx5 fx6 fx7 eng es t qs1 qs2 i j q,
   nth_error qs1 i = Some q -> nth_error qs2 j = Some q ->
   nth_error (serve_seq fx1 fx2 fx5 fx6 fx7 eng es t qs1) i = nth_error (serve_seq fx1 fx2 fx5 fx6 fx7 eng es t qs2) j.
 Proof. exact serve_seq_same_request. Qed.
-Print Assumptions C03_history_independent.
+Print Assumptions C03_request_sequence_independent.
 
 (** the tree-side findings, on loaded rule sets *)
 Theorem C03_F2_pinned_refuted :
@@ -282,6 +294,21 @@ Theorem C03_nonvacuous :
     route_matches true true D8 eng_none cm q keys vals = MYes.
 Proof. exact route_semantics_nonvacuous_live. Qed.
 Print Assumptions C03_nonvacuous.
+
+(** the hypotheses of the Add-only lookup theorems ([C03_selected_only_if_documented] ...) are satisfiable for
+    the code as it is: a rule set loaded by one AddRuleSet, a request with a non-empty, validly encoded RawPath
+    that selects a rule through a path_params condition on a single and on a free wildcard *)
+Theorem C03_lookup_nonvacuous :
+  exists es t,
+    load true true ex_ds = Loaded es t /\
+    String.eqb (q_rawpath (w_req "GET" "h" "/foo/baz/1")) "" = false /\
+    valid_enc (q_rawpath (w_req "GET" "h" "/foo/baz/1")) /\
+    serve true true true true D8 eng_none es t (w_req "GET" "h" "/foo/baz/1")
+      = (ORule 1 [("x", "1")] false, [{| k_vid := 1; k_keys := ["x"]; k_vals := ["1"]; k_res := MYes |}]) /\
+    serve true true true true D8 eng_none es t (w_req "GET" "h" "/files/a/b")
+      = (ORule 1 [("rest", "a/b")] false, [{| k_vid := 2; k_keys := ["rest"]; k_vals := ["a/b"]; k_res := MYes |}]).
+Proof. exact lookup_nonvacuous. Qed.
+Print Assumptions C03_lookup_nonvacuous.
 
 (* ================================================================== every tree the repository can reach *)
 
@@ -406,9 +433,10 @@ Proof. exact hist_selected_only_if_documented. Qed.
 Print Assumptions C03_history_selected_only_if_documented.
 
 (** non-vacuity: a history whose tree went through prefix splits and a deleteChild merge, with a
-    route carrying path_params on a single and on a free wildcard (C03/ReachTheorems.v) *)
+    route carrying path_params on a single and on a free wildcard (C03/ReachTheorems.v); the last two
+    conjuncts: the first request satisfies the hypotheses of [C03_history_selected_only_if_documented] *)
 Theorem C03_history_nonvacuous :
-  ex_oks ex_ops = Some [true; true; true] /\
+ (ex_oks ex_ops = Some [true; true; true] /\
   ex_paths (firstn 2 ex_ops) = Some [""; "/"; "f"; "oo"; "/"; "ba"; "r"; "z"; "/"; "wildcard"; "iles"; "/"; "rest"] /\
   ex_paths ex_ops = Some [""; "/"; "f"; "oo"; "/"; "baz"; "/"; "wildcard"; "iles"; "/"; "rest"] /\
   ex_serve ex_ops (w_req "GET" "h" "/foo/baz/1")
@@ -419,6 +447,8 @@ Theorem C03_history_nonvacuous :
     = Some (ORule 1 [("rest", "a/b")] false, [{| k_vid := 2; k_keys := ["rest"]; k_vals := ["a/b"]; k_res := MYes |}]) /\
   ex_serve ex_ops (w_req "GET" "h" "/foo/bar") = Some (ONone, []) /\
   ex_serve (firstn 2 ex_ops) (w_req "GET" "h" "/foo/bar")
-    = Some (ORule 0 [] false, [{| k_vid := 0; k_keys := []; k_vals := []; k_res := MYes |}]).
-Proof. exact hist_example. Qed.
+    = Some (ORule 0 [] false, [{| k_vid := 0; k_keys := []; k_vals := []; k_res := MYes |}])) /\
+  String.eqb (q_rawpath (w_req "GET" "h" "/foo/baz/1")) "" = false /\
+  valid_enc (q_rawpath (w_req "GET" "h" "/foo/baz/1")).
+Proof. exact (conj hist_example hist_example_hyps). Qed.
 Print Assumptions C03_history_nonvacuous.
